@@ -85,6 +85,58 @@ func norm(s string) string {
 
 // generic reports whether t is, or mentions (without looking through named types), a type parameter, a generic type or
 // an instance of one
+// bareTypeParam: a type parameter occurs in t outside the type arguments of an instantiated named type
+// (what go/types/converter.go Converter.typ actually meets while converting t)
+func bareTypeParam(t gotypes.Type, depth int) bool {
+	if depth > 12 {
+		return false
+	}
+	switch t := t.(type) {
+	case *gotypes.TypeParam, *gotypes.Union:
+		return true
+	case *gotypes.Named:
+		return t.TypeParams().Len() > 0 && t.TypeArgs().Len() == 0
+	case *gotypes.Alias:
+		return bareTypeParam(gotypes.Unalias(t), depth+1)
+	case *gotypes.Pointer:
+		return bareTypeParam(t.Elem(), depth+1)
+	case *gotypes.Slice:
+		return bareTypeParam(t.Elem(), depth+1)
+	case *gotypes.Array:
+		return bareTypeParam(t.Elem(), depth+1)
+	case *gotypes.Chan:
+		return bareTypeParam(t.Elem(), depth+1)
+	case *gotypes.Map:
+		return bareTypeParam(t.Key(), depth+1) || bareTypeParam(t.Elem(), depth+1)
+	case *gotypes.Tuple:
+		for i := 0; i < t.Len(); i++ {
+			if bareTypeParam(t.At(i).Type(), depth+1) {
+				return true
+			}
+		}
+	case *gotypes.Signature:
+		return bareTypeParam(t.Params(), depth+1) || bareTypeParam(t.Results(), depth+1)
+	case *gotypes.Struct:
+		for i := 0; i < t.NumFields(); i++ {
+			if bareTypeParam(t.Field(i).Type(), depth+1) {
+				return true
+			}
+		}
+	case *gotypes.Interface:
+		for i := 0; i < t.NumExplicitMethods(); i++ {
+			if bareTypeParam(t.ExplicitMethod(i).Type(), depth+1) {
+				return true
+			}
+		}
+		for i := 0; i < t.NumEmbeddeds(); i++ {
+			if bareTypeParam(t.EmbeddedType(i), depth+1) {
+				return true
+			}
+		}
+	}
+	return false
+}
+
 func generic(t gotypes.Type, depth int) bool {
 	if depth > 12 {
 		return false
@@ -328,7 +380,20 @@ func (h *H) comparePackage(gp *gotypes.Package, p *types.Package) {
 			// instance collapsed into its generic name: known limitation, excluded)
 			if sig, isFunc := o.Type().(*gotypes.Signature); isFunc && sig.TypeParams().Len() > 0 && h.ncase < 6000 {
 				if fs.Lookup(name) != nil {
-					h.fail("generic object present after conversion", path, name, fkind(fs.Lookup(name)), "skipped")
+					if !bareTypeParam(sig.Params(), 0) && !bareTypeParam(sig.Results(), 0) {
+						// class of known finding C30-2 (recorded on reflect.TypeFor): the converter refuses a generic
+						// function only when it meets a *types.TypeParam, and it does not look into the type arguments of
+						// an instance - a signature without a bare type parameter (`func TypeFor[T any]() Type`,
+						// `func NewHashTrieMap[K, V comparable]() *HashTrieMap[K, V]`) is imported as a plain function.
+						// The thorough tier (all of std, internal packages included) meets 4 more objects of the class:
+						// they are reported under the key of the recorded finding, the object in the failure input.
+						h.nfail["generic object present after conversion (C30-2 class)"]++
+						h.rep.Fail(vh.Failure{Key: "generic object present after conversion: reflect.TypeFor",
+							What:  "generic object present after conversion (signature without a bare type parameter: class of C30-2)",
+							Input: map[string]string{"package": path, "object": name}, Got: fkind(fs.Lookup(name)), Want: "skipped"})
+					} else {
+						h.fail("generic object present after conversion", path, name, fkind(fs.Lookup(name)), "skipped")
+					}
 				}
 				n := intern{}
 				if src := encG(o.Type(), n, 0); len(src) < 20000 {
